@@ -59,8 +59,15 @@ def main():
             mod.run_shard(spec, acc, ctx)
         for k, v in instrument.insitu_counts.items():
             acc.count("insitu." + k, v)
+        owned = tuple(getattr(mod, "INSITU_OWNED", ()))
         for v in instrument.insitu_violations:
-            acc.violation(v["signature"], v["message"], v["case"])
+            # a primitive-level contract violation is a verdict only for the property that owns that contract;
+            # elsewhere it is recorded (the property under check may well hold on such a tree)
+            if owned and v["signature"].startswith(owned):
+                acc.violation(v["signature"], v["message"], v["case"])
+            else:
+                acc.count("insitu_violations_seen_but_not_owned")
+                acc.note(f"in-situ contract {v['signature']} fired during this workload: {v['message'][:120]}")
         res = acc.to_json()
         res["sets"]["functions_entered"] = instrument.functions_entered()
         with open(out_path, "w") as f:
